@@ -161,6 +161,23 @@ std::string jesc(const std::string& s)
                     len = k > 0 ? (size_t) k : 0;
                 }
                 rec->msg[len] = 0;
+                // a pika assertion / exception report that ended the process: name the assertion in
+                // the key, so that a known finding about one assertion cannot hide another one
+                if (!WIFSIGNALED(st))
+                {
+                    const char* a = strstr(rec->msg, "Assertion '");
+                    if (a)
+                    {
+                        a += 11;
+                        char id[64];
+                        int k = 0;
+                        for (; *a && *a != '\'' && k < 56; ++a)
+                            if ((*a >= 'a' && *a <= 'z') || (*a >= 'A' && *a <= 'Z') || (*a >= '0' && *a <= '9') || *a == '_') id[k++] = *a;
+                            else if (k && id[k - 1] != '-') id[k++] = '-';
+                        id[k] = 0;
+                        snprintf(rec->fail_id, sizeof rec->fail_id, "assert-%s", id);
+                    }
+                }
             }
         }
         rec->wall_s = now_s() - t0;
